@@ -209,6 +209,9 @@ M = [
     ("C07", "object-kill-hooks-stop-at-first-failure", P + "proxy/addons.py",
      "            return cls._call_all_addon_hooks(\"handle_object_killed\", session, region, obj)",
      "            try:\n                for addon in cls._get_all_addon_objects():\n                    hook = getattr(addon, \"handle_object_killed\", None)\n                    if hook and hook(session, region, obj):\n                        return True\n            except Exception:\n                LOG.exception(\"object kill hook failed\")\n            return None"),
+    ("C07", "predicate-failure-aborts-notify", P + "base/events.py",
+     "            try:\n                if predicate and not predicate(args):\n                    continue\n            except:\n                # A failing predicate shouldn't prevent notification of other handlers either.\n                LOG.exception(f\"Failed in predicate for {self.name}\")\n                continue\n",
+     "            if predicate and not predicate(args):\n                continue\n"),
     # ---- C20 ----
     ("C20", "transfer-done-on-done-packet", P + "base/transfer_manager.py",
      "        if not transfer.done() and len(transfer.chunks) == transfer.expected_chunks:",
